@@ -16,6 +16,8 @@ mod timeout;
 mod wire;
 mod streams;
 mod pool;
+mod connleaf;
+mod poolmt;
 mod server;
 mod tls;
 mod tlsp;
@@ -49,6 +51,8 @@ fn gen(stream: &str, seed: u64, n: u64) -> Vec<String> {
                 "wire" => wire::gen(&mut r, i),
                 "st" => streams::gen(&mut r, i),
                 "pool" => pool::gen(&mut r, i),
+                "conn" => connleaf::gen(&mut r, i),
+                "poolmt" => poolmt::gen(&mut r, i),
                 "srv" => server::gen(&mut r, i),
                 "tls" => tls::gen(&mut r, i),
                 "tlsp" => tlsp::gen(&mut r, i),
@@ -82,6 +86,8 @@ fn run_line(line: &str) -> String {
         "wire" => wire::run(&toks),
         "st" => streams::run(&toks),
         "pool" => pool::run(&toks),
+        "conn" => connleaf::run(&toks),
+        "poolmt" => poolmt::run(&toks),
         "srv" => server::run(&toks),
         "tls" => tls::run(&toks),
         "tlsp" => tlsp::run(&toks),
